@@ -1036,21 +1036,21 @@ pub fn run_c11(tier: Tier) -> i32 {
         }
     }
     {
-        // the material LATTICE: every vector of piece counts (queens 0..3, rooks 0..2, bishops 0..2,
-        // knights 0..2, pawns 0..2 per side: 324^2 = 104 976 vectors — "all material configurations
+        // the material LATTICE: every vector of piece counts (queens, rooks, bishops, knights 0..3 each,
+        // pawns 0..2 per side: 768^2 = 589 824 vectors — "all material configurations
         // and game stages"), each in several deterministic placements with the kings on unrelated
         // squares. The evaluation may depend on counts in ways no single-signature family shows.
         let t0 = Instant::now();
-        let placements: u64 = if tier == Tier::Quick { 6 } else { 48 };
+        let placements: u64 = if tier == Tier::Quick { 3 } else { 24 };
         let lattice_n = AtomicU64::new(0);
-        let per_side: u64 = 4 * 3 * 3 * 3 * 3;
+        let per_side: u64 = 4 * 4 * 4 * 4 * 3;
         par_for(per_side * per_side * placements, 256, |idx| {
             let mut i = idx;
             let variant = i % placements;
             i /= placements;
             let mut counts = [[0u64; 5]; 2]; // q r b n p
             for side in 0..2 {
-                for (j, n) in [4u64, 3, 3, 3, 3].iter().enumerate() {
+                for (j, n) in [4u64, 4, 4, 4, 3].iter().enumerate() {
                     counts[side][j] = i % n;
                     i /= n;
                 }
@@ -1092,7 +1092,7 @@ pub fn run_c11(tier: Tier) -> i32 {
                 }
             }
         });
-        fams.push(json!({"family": "material lattice: every count vector (Q 0..3, R B N P 0..2 per side) x deterministic placements x side to move", "count_vectors": per_side * per_side, "placements_per_vector": placements, "legal_members": lattice_n.load(Ordering::Relaxed), "secs": t0.elapsed().as_secs_f64()}));
+        fams.push(json!({"family": "material lattice: every count vector (Q R B N 0..3, P 0..2 per side) x deterministic placements x side to move", "count_vectors": per_side * per_side, "placements_per_vector": placements, "legal_members": lattice_n.load(Ordering::Relaxed), "secs": t0.elapsed().as_secs_f64()}));
     }
     let castle = CastleFam { blockers: 6 };
     let ep = EpFam::quick();
